@@ -365,13 +365,15 @@ func (impl Implementation) Dsteqr(compz lapack.EVComp, n int, d, e, z []float64,
 
 		// Check for no convergence to an eigenvalue after a total of n*maxit iterations.
 		if jtot >= nmaxit {
-			break
+			for i := 0; i < n-1; i++ {
+				if e[i] != 0 {
+					return false
+				}
+			}
+			// The last block converged on the sweep that exhausted the
+			// budget: order the eigenvalues (and eigenvectors) as on the
+			// regular exit before reporting success.
+			l1 = n
 		}
 	}
-	for i := 0; i < n-1; i++ {
-		if e[i] != 0 {
-			return false
-		}
-	}
-	return true
 }
